@@ -259,6 +259,7 @@ def handle (j : Json) : Json :=
     let r := pvOf (fld o "pv")
     let e := encode r
     Json.mkObj [("enc", ofM e), ("conforms", Json.bool (conforms R ty r)),
+                ("safe", Json.bool (safeDecimals r)), ("oneOfOk", Json.bool (oneOfOk C ⟨true, gm⟩ ty r)),
                 ("valid_model", Json.bool (validate C sOut e)),
                 ("valid_real", match realOut with
                   | some d => Json.bool (validateRoot R.search fuel d d (toM (fld o "enc")))
